@@ -1,5 +1,7 @@
 import TakVerif.Props.C20
-import TakVerif.Impl.Friendly
+import TakVerif.Props.C20_size4
+import TakVerif.Props.C20_size5
+import TakVerif.Proofs.Glue
 import TakVerif.Proofs.ApplyCfg
 import TakVerif.Proofs.HashInv
 
@@ -25,89 +27,6 @@ namespace C20
 open Tak Tak.FPA Tak.Glue Spec.FPA
 
 /-! ## the shape of `Friendly.GetMove` -/
-
-/-- the rule check `Friendly.GetMove` starts with: `f.fpa.LegalMove(f.g.Positions[len-2], f.g.Moves[len-1])` when
-`p.MoveNumber() > 0` (the updated remembered squares and the verdict); nothing to check at ply 0 -/
-def prevCheck (var : Variant) (r : Rule) (g : GameRec) (p : Pos) : R (Rule × Bool) :=
-  if p.move > 0 then
-    match prevOf g with
-    | .ok (q, m) => legalMove var r (viewOfPos q) m
-    | .error e => .error e
-  else .ok (r, true)
-
-theorem friendly_cases (fpa : Option (Variant × Rule)) (g : GameRec) (p : Pos) (o : CheckOracle) :
-  Glue.friendlyGetMove fpa g p o =
-    match fpaCheck fpa g p with
-    | .error e => .error e
-    | .ok (f', some msg) => .ok (f', .resign msg)
-    | .ok (f', none) =>
-      if p.toMove ≠ g.color then .ok (f', .noMove) else
-      match fpaScript f' p with
-      | .error e => .error e
-      | .ok (some m) => .ok (f', .move m)
-      | .ok none =>
-        match waitUndo g o with
-        | .error e => .error e
-        | .ok w => .ok (f', .think (some Facts.maxThink) (some (if w then .undo else .minThink))) := by
-  unfold Glue.friendlyGetMove
-  cases h1 : fpaCheck fpa g p with
-  | error e => rfl
-  | ok v =>
-    obtain ⟨f', rej⟩ := v
-    cases rej with
-    | some msg => rfl
-    | none =>
-      show (if p.toMove ≠ g.color then _ else _) = (if p.toMove ≠ g.color then _ else _)
-      by_cases ht : p.toMove ≠ g.color
-      · rw [if_pos ht, if_pos ht]
-      · rw [if_neg ht, if_neg ht]
-        cases h2 : fpaScript f' p with
-        | error e => rfl
-        | ok sm =>
-          cases sm with
-          | some m => rfl
-          | none =>
-            show (waitUndo g o >>= _) = _
-            cases h3 : waitUndo g o with
-            | error e => rfl
-            | ok w => rfl
-
-/-- the first block in terms of `prevCheck` -/
-theorem fpaCheck_some (var : Variant) (r : Rule) (g : GameRec) (p : Pos) :
-    fpaCheck (some (var, r)) g p =
-      match prevCheck var r g p with
-      | .error e => .error e
-      | .ok (r', true) => .ok (some (var, r'), none)
-      | .ok (r', false) =>
-        match prevOf g with
-        | .error e => .error e
-        | .ok (q, _) =>
-          match errMsg var q.move with
-          | .error e => .error e
-          | .ok msg => .ok (some (var, r'), some msg) := by
-  unfold fpaCheck prevCheck
-  by_cases hp : p.move > 0
-  · simp only [hp, if_true]
-    cases h1 : prevOf g with
-    | error e => rfl
-    | ok qm =>
-      obtain ⟨q, m⟩ := qm
-      dsimp only
-      show (legalMove var r (viewOfPos q) m >>= _) = _
-      cases h2 : legalMove var r (viewOfPos q) m with
-      | error e => rfl
-      | ok v =>
-        obtain ⟨r', ok⟩ := v
-        cases ok with
-        | true => rfl
-        | false =>
-          show (errMsg var q.move >>= _) = _
-          cases h3 : errMsg var q.move with
-          | error e => rfl
-          | ok msg => rfl
-  · simp only [hp, if_false]
-
-theorem fpaCheck_none (g : GameRec) (p : Pos) : fpaCheck none g p = .ok (none, none) := rfl
 
 /-! ## the scripted move comes first -/
 
@@ -360,5 +279,299 @@ example : ∃ p0, Pos.new (friendlyConfig false 5) = .ok p0 ∧
   refine ⟨p0, hp, ?_⟩
   obtain ⟨_, _, rfl⟩ := Tak.new_ok hp
   rfl
+
+/-! ## every returned move is legal -/
+
+/-- **Every move `Friendly.GetMove` returns under an FPA rule is the zero move or legal.**
+`t` is a state of C20's opening game (`Spec.FPA`: the rule's remembered squares, the current position, the
+previous one with the move that led here) reachable within the horizon for which the C20 claim `Holds`; the
+call `(g, p)` shows the rule code what `t` shows it (same view of the position, same side to move, same previous
+pair; `g.color` the bot's colour).  Then whatever `GetMove` returns is the zero move (resignation, not the bot's
+turn) or a move that is legal by the rule book in `t.cur`: the scripted move by `C20.Holds`, the searcher's answer
+by the contract C04 gives it (`hsearch`: legal whenever it is consulted).  Instances: `friendly_move_legal_centre`
+(every size 4..8), `friendly_move_legal_4x4`, `friendly_move_legal_5x5` (double stack and cairn). -/
+theorem friendly_move_legal (var : Variant) (color : Color) (size horizon : Nat)
+    (hH : Holds var color size horizon) (k : Nat) (hk : k ≤ horizon) (t : St Spec.State)
+    (hreach : Reach specBoard var color k (init size) t)
+    (g : GameRec) (p : Pos) (o : CheckOracle) (f' : Option (Variant × Rule)) (a : Action)
+    (hcol : g.color = color) (hview : viewOfPos p = viewOf t.cur) (hmv : p.toMove = t.cur.toMove)
+    (hprev : prevViews g = t.prev.map (fun (q, m) => (viewOf q, m)))
+    (h : Glue.friendlyGetMove (some (var, t.rule)) g p o = .ok (f', a))
+    (ans : Move) (hsearch : a.searches = true → (Spec.step t.cur (Spec.decode ans)).isSome = true) :
+    a.returned ans = zeroMove ∨ (Spec.step t.cur (Spec.decode (a.returned ans))).isSome = true := by
+  obtain ⟨r', rep, hf, _, hm⟩ := glue_refines_fpa var t.rule g p o f' a h
+  have hturn : turn specBoard var color t = .ok (r', rep) := by
+    unfold turn
+    show FPA.friendlyGetMove var color t.rule (viewOf t.cur) t.cur.toMove (t.prev.map (fun (q, m) => (viewOf q, m))) = _
+    rw [← hview, ← hmv, ← hprev, ← hcol]
+    exact hf
+  have hg := hH k t hk hreach
+  cases hm with
+  | resign msg => exact .inl rfl
+  | notMyTurn => exact .inl rfl
+  | scripted m => exact .inr (good_scripted var color t r' m hg hturn)
+  | search l f => exact .inr (hsearch rfl)
+
+/-- the same in the terms of the bot loop: what is handed to `g.p.Move` is legal or the zero move, which
+`Position.Move` rejects ("ai returned bad move"; the loop then asks again) -/
+theorem friendly_move_legal_centre (size : Nat) (hs : size ∈ [4, 5, 6, 7, 8]) (color : Color)
+    (hc : color ∈ [Color.white, Color.black]) (k : Nat) (hk : k ≤ 2) (t : St Spec.State)
+    (hreach : Reach specBoard .center color k (init size) t)
+    (g : GameRec) (p : Pos) (o : CheckOracle) (f' : Option (Variant × Rule)) (a : Action)
+    (hcol : g.color = color) (hview : viewOfPos p = viewOf t.cur) (hmv : p.toMove = t.cur.toMove)
+    (hprev : prevViews g = t.prev.map (fun (q, m) => (viewOf q, m)))
+    (h : Glue.friendlyGetMove (some (.center, t.rule)) g p o = .ok (f', a))
+    (ans : Move) (hsearch : a.searches = true → (Spec.step t.cur (Spec.decode ans)).isSome = true) :
+    a.returned ans = zeroMove ∨ (Spec.step t.cur (Spec.decode (a.returned ans))).isSome = true :=
+  friendly_move_legal .center color size 2 (fpa_centre size hs color hc) k hk t hreach g p o f' a hcol hview hmv hprev h ans hsearch
+
+/-- the C20 claim holds for every variant and both colours on the 4×4 and 5×5 boards (centre: horizon 2 suffices, 6 is
+what the other two need; stated with the horizon each was proved for) -/
+theorem holds_4x4_5x5 (var : Variant) (hv : var ≠ .center) (color : Color) (hc : color ≠ .none)
+    (size : Nat) (hs : size = 4 ∨ size = 5) : Holds var color size 6 := by
+  rcases hs with rfl | rfl <;> cases var <;> cases color <;>
+    first
+    | exact absurd rfl hv
+    | exact absurd rfl hc
+    | exact fpa_doubleStack_partial_white
+    | exact fpa_doubleStack_partial_black
+    | exact fpa_cairn_partial_white
+    | exact fpa_cairn_partial_black
+    | exact fpa_doubleStack_partial5_white
+    | exact fpa_doubleStack_partial5_black
+    | exact fpa_cairn_partial5_white
+    | exact fpa_cairn_partial5_black
+
+/-- double stack and cairn, 4×4 and 5×5, both colours: every move returned during the scripted opening (6 plies and
+the check of the last one) is the zero move or legal -/
+theorem friendly_move_legal_4x4_5x5 (var : Variant) (hv : var ≠ .center) (color : Color) (hc : color ≠ .none)
+    (size : Nat) (hs : size = 4 ∨ size = 5) (k : Nat) (hk : k ≤ 6) (t : St Spec.State)
+    (hreach : Reach specBoard var color k (init size) t)
+    (g : GameRec) (p : Pos) (o : CheckOracle) (f' : Option (Variant × Rule)) (a : Action)
+    (hcol : g.color = color) (hview : viewOfPos p = viewOf t.cur) (hmv : p.toMove = t.cur.toMove)
+    (hprev : prevViews g = t.prev.map (fun (q, m) => (viewOf q, m)))
+    (h : Glue.friendlyGetMove (some (var, t.rule)) g p o = .ok (f', a))
+    (ans : Move) (hsearch : a.searches = true → (Spec.step t.cur (Spec.decode ans)).isSome = true) :
+    a.returned ans = zeroMove ∨ (Spec.step t.cur (Spec.decode (a.returned ans))).isSome = true :=
+  friendly_move_legal var color size 6 (holds_4x4_5x5 var hv color hc size hs) k hk t hreach g p o f' a hcol hview hmv hprev h ans hsearch
+
+/-- the full statement (sizes 6..8 for double stack and cairn are covered by the exhaustive correspondence of
+C20, not by a kernel evaluation: `C20.fpa_doubleStack_statement`, `fpa_cairn_statement`) -/
+def friendly_move_legal_statement : Prop :=
+  ∀ (var : Variant) (color : Color) (size : Nat), color ≠ .none → size ∈ [4, 5, 6, 7, 8] →
+    ∀ (k : Nat) (t : St Spec.State), k ≤ 6 → Reach specBoard var color k (init size) t →
+    ∀ (g : GameRec) (p : Pos) (o : CheckOracle) (f' : Option (Variant × Rule)) (a : Action),
+      g.color = color → viewOfPos p = viewOf t.cur → p.toMove = t.cur.toMove →
+      prevViews g = t.prev.map (fun (q, m) => (viewOf q, m)) →
+      Glue.friendlyGetMove (some (var, t.rule)) g p o = .ok (f', a) →
+      ∀ ans, (a.searches = true → (Spec.step t.cur (Spec.decode ans)).isSome = true) →
+        a.returned ans = zeroMove ∨ (Spec.step t.cur (Spec.decode (a.returned ans))).isSome = true
+
+/-- the hypotheses of `friendly_move_legal` are satisfiable: the start of a centre game on 5×5, bot White, seen
+through the bit-level start position -/
+example : ∃ p0, Pos.new (friendlyConfig true 5) = .ok p0 ∧
+    Reach specBoard .center .white 0 (init 5) (init 5) ∧
+    viewOfPos p0 = viewOf (init 5).cur ∧ p0.toMove = (init 5).cur.toMove ∧
+    prevViews { color := .white, size := 5, positions := [p0], moves := [] } = (init 5).prev.map (fun (q, m) => (viewOf q, m)) := by
+  obtain ⟨p0, hp⟩ : ∃ p0, Pos.new (friendlyConfig true 5) = .ok p0 := ⟨_, rfl⟩
+  refine ⟨p0, hp, .refl _, ?_, ?_, ?_⟩
+  · obtain ⟨_, _, rfl⟩ := Tak.new_ok hp
+    exact view_ext_of_empty _ _ rfl rfl (viewOfPos_empty_board _ rfl rfl) (viewOf_init_empty 5)
+  · obtain ⟨_, _, rfl⟩ := Tak.new_ok hp
+    rfl
+  · rfl
+
+/-! ## when the record indexing panics -/
+
+/-- the rule's own code does not panic on this call (for the openings of C20 that is part of `C20.Holds`) -/
+def RuleTotal (fpa : Option (Variant × Rule)) (g : GameRec) (p : Pos) : Prop :=
+  ∀ var r, fpa = some (var, r) →
+    (∀ q m, prevOf g = .ok (q, m) → ∃ x, legalMove var r (viewOfPos q) m = .ok x) ∧
+    (∀ r', ∃ y, getMove var r' (viewOfPos p) = .ok y)
+
+/-- **No index panic on a record with a previous position**: when the record holds at least two positions and one
+move (in the bot loop: as soon as one move was made — `Tak.Bot.Core.shape` keeps `len(Positions) = len(Moves)+1`),
+`Friendly.GetMove` runs through, whatever position it is called on and whatever the oracles say, provided the
+rule's own code does not panic; the resignation text always exists (`errMsg_ok_of_reject`). -/
+theorem friendly_total (fpa : Option (Variant × Rule)) (g : GameRec) (p : Pos) (o : CheckOracle)
+    (hrule : RuleTotal fpa g p) (hrec : 2 ≤ g.positions.length ∧ 1 ≤ g.moves.length) :
+    ∃ x, Glue.friendlyGetMove fpa g p o = .ok x := by
+  obtain ⟨q, m, hq⟩ : ∃ q m, prevOf g = .ok (q, m) := by
+    unfold prevOf
+    obtain ⟨hp, hm⟩ := hrec
+    match hg : g.positions, hg2 : g.moves with
+    | _ :: q :: _, m :: _ => exact ⟨q, m, rfl⟩
+    | [], _ => rw [hg] at hp; simp at hp
+    | [_], _ => rw [hg] at hp; simp at hp
+    | _ :: _ :: _, [] => rw [hg2] at hm; simp at hm
+  have hw : ∃ w, waitUndo g o = .ok w := by
+    unfold waitUndo
+    split
+    · exact ⟨_, rfl⟩
+    · match hg : g.positions with
+      | _ :: _ :: _ => exact ⟨_, rfl⟩
+      | [] => rw [hg] at hrec; simp at hrec
+      | [_] => rw [hg] at hrec; simp at hrec
+  obtain ⟨w, hw⟩ := hw
+  rw [friendly_cases]
+  cases fpa with
+  | none =>
+    rw [fpaCheck_none]
+    simp only [fpaScript, hw]
+    split <;> exact ⟨_, rfl⟩
+  | some vr =>
+    obtain ⟨var, r⟩ := vr
+    obtain ⟨hl, hgm⟩ := hrule var r rfl
+    rw [fpaCheck_some]
+    unfold prevCheck
+    by_cases hp : p.move > 0
+    · simp only [hp, if_true, hq]
+      obtain ⟨⟨r', ok⟩, hx⟩ := hl q m hq
+      rw [hx]
+      cases ok with
+      | false =>
+        obtain ⟨msg, he⟩ := errMsg_ok_of_reject hx
+        simp only [he]
+        exact ⟨_, rfl⟩
+      | true =>
+        simp only [fpaScript]
+        obtain ⟨y, hy⟩ := hgm r'
+        rw [hy]
+        split
+        · exact ⟨_, rfl⟩
+        · cases y <;> simp only [hw] <;> exact ⟨_, rfl⟩
+    · simp only [hp, if_false, fpaScript]
+      obtain ⟨y, hy⟩ := hgm r
+      rw [hy]
+      split
+      · exact ⟨_, rfl⟩
+      · cases y <;> simp only [hw] <;> exact ⟨_, rfl⟩
+
+/-- **… and exactly there it does panic**: with an FPA rule, a call on a position that is not a start position
+while the record holds fewer than two positions (or no move) is an index panic — the case of a thinker that
+was started before its position was undone (op lines `… u c;j=…` of the correspondence; not reachable while the
+thinker's position is still in the record). -/
+theorem friendly_short_record_panics (var : Variant) (r : Rule) (g : GameRec) (p : Pos) (o : CheckOracle)
+    (hp : p.move > 0) (hshort : g.positions.length < 2 ∨ g.moves = []) :
+    ∃ e, Glue.friendlyGetMove (some (var, r)) g p o = .error e := by
+  have hq : ∃ e, prevOf g = .error e := by
+    unfold prevOf
+    match hg : g.positions, hg2 : g.moves with
+    | [], _ => exact ⟨_, rfl⟩
+    | [_], _ => exact ⟨_, rfl⟩
+    | _ :: _ :: _, [] => exact ⟨_, rfl⟩
+    | _ :: _ :: _, _ :: _ =>
+      rcases hshort with h | h
+      · rw [hg] at h; simp only [List.length_cons] at h; omega
+      · rw [hg2] at h; cases h
+  obtain ⟨e, hq⟩ := hq
+  rw [friendly_cases, fpaCheck_some]
+  unfold prevCheck
+  simp only [hp, if_true, hq]
+  exact ⟨_, rfl⟩
+
+/-- the other index: `waitUndo` reads `Positions[len-2]` when its engine reports a win in one for the bot; on a
+one-position record (ply 0) that is a panic.  No engine that is sound (C05 `verdict_sound`) reports a win on the
+empty board, so this needs an oracle no real engine is. -/
+theorem friendly_waitUndo_short_record (g : GameRec) (p : Pos) (o : CheckOracle)
+    (hturn : p.toMove = g.color) (hlen : g.positions.length < 2) (ha : asksPrev o = true) :
+    ∃ e, Glue.friendlyGetMove none g p o = .error e := by
+  rw [friendly_cases, fpaCheck_none]
+  simp only [hturn, ne_eq, not_true_eq_false, if_false, fpaScript]
+  unfold waitUndo
+  simp only [ha, Bool.not_true, Bool.false_eq_true, if_false]
+  match hg : g.positions with
+  | [] => exact ⟨_, rfl⟩
+  | [_] => exact ⟨_, rfl⟩
+  | _ :: _ :: _ => rw [hg] at hlen; simp at hlen; omega
+
+/-- the panic on a concrete record: double stack, a thinker started after `a1` whose position was undone since -/
+example : ∃ p0 p1, Pos.new (friendlyConfig true 5) = .ok p0 ∧ p0.apply (Array.replicate 64 0#64) (place 0 0) = .ok p1 ∧
+    ∃ e, Glue.friendlyGetMove (some (.doubleStack, {})) { color := .black, size := 5, positions := [p0], moves := [] } p1
+      { curV := 0, curDepth := 0, prevV := 0 } = .error e := by
+  refine ⟨_, _, rfl, rfl, ?_⟩
+  apply friendly_short_record_panics
+  · decide +kernel
+  · left; decide
+
+/-! ## `Config` -/
+
+/-- **`Friendly.Config`**: the size asked for, default piece counts, and Black wins ties exactly when an FPA rule
+is installed. -/
+theorem friendly_config_black_wins_ties (fpa : Bool) (size : Nat) :
+    (friendlyConfig fpa size).blackWinsTies = fpa ∧ (friendlyConfig fpa size).size = size ∧
+    (friendlyConfig fpa size).pieces = 0 ∧ (friendlyConfig fpa size).capstones = 0 := ⟨rfl, rfl, rfl, rfl⟩
+
+/-- … and what it means for the game the bot loop starts with it (`tak.New(config(b, g))`): in every position of
+that game a flat-count tie goes to Black under an FPA rule and to nobody otherwise. -/
+theorem friendly_ties_go_to_black (basis : Array W) (fpa : Bool) (size : Nat) (p0 q : Pos) (ms : List Move)
+    (h0 : Pos.new (friendlyConfig fpa size) = .ok p0) (h : p0.applyAll basis ms = .ok q)
+    (htie : q.countFlats.1 = q.countFlats.2) :
+    q.cfg.blackWinsTies = fpa ∧ q.flatsWinner = if fpa then .black else .none := by
+  have hc : q.cfg.blackWinsTies = fpa := by
+    rw [Tak.applyAll_cfg ms h]
+    obtain ⟨_, _, rfl⟩ := Tak.new_ok h0
+    rfl
+  refine ⟨hc, ?_⟩
+  unfold Pos.flatsWinner
+  generalize q.countFlats = cf at htie
+  obtain ⟨cw, cb⟩ := cf
+  simp only at htie
+  subst htie
+  simp only [gt_iff_lt, Nat.lt_irrefl, if_false, hc]
+
+example : ∃ p0 q, Pos.new (friendlyConfig true 4) = .ok p0 ∧
+    p0.applyAll (Array.replicate 64 0#64) [place 0 0, place 3 3] = .ok q ∧ q.countFlats.1 = q.countFlats.2 ∧
+    q.flatsWinner = .black := by
+  refine ⟨_, _, rfl, rfl, ?_, ?_⟩ <;> decide +kernel
+
+/-! ## `Taktician.GetMove` -/
+
+/-- **Taktician is silent off turn unless it may use the opponent's time**: the zero move without consulting the
+searcher iff it is not its turn and `-use-opponent-time` is off. -/
+theorem taktician_silent_off_turn (cfg : TakticianCfg) (color : Color) (size : Nat) (p : Pos) (mine : Int) :
+    takticianGetMove cfg color size p mine = .noMove ↔ (p.toMove ≠ color ∧ cfg.useOpponentTime = false) := by
+  unfold takticianGetMove
+  by_cases ht : p.toMove = color
+  · simp [ht]
+  · cases hu : cfg.useOpponentTime <;> simp [ht]
+
+/-- off turn with `-use-opponent-time`: the searcher ponders on the caller's context, with no deadline of its own -/
+theorem taktician_ponders (cfg : TakticianCfg) (color : Color) (size : Nat) (p : Pos) (mine : Int)
+    (hoff : p.toMove ≠ color) (hu : cfg.useOpponentTime = true) :
+    takticianGetMove cfg color size p mine = .think none none := by
+  unfold takticianGetMove
+  simp [hoff, hu]
+
+/-- **The timeout rule**: on its own turn Taktician searches under a timeout of 20 s for the first two plies and
+of `-limit` afterwards — whatever the board size and the remaining clock time (`timeBound` ignores both) — and
+hands the answer back at once (no floor). -/
+theorem taktician_timeout_rule (cfg : TakticianCfg) (color : Color) (size : Nat) (p : Pos) (mine : Int)
+    (hon : p.toMove = color) :
+    takticianGetMove cfg color size p mine =
+      .think (some (if p.move < 2 then 20 * 1000000000 else cfg.limit)) none := by
+  unfold takticianGetMove timeBound openingTimeout
+  simp only [hon, if_true]
+  by_cases h : p.move < 2 <;> simp [h]
+
+/-- Taktician never sends anything from `GetMove` and an observer (`Color = NoColor`) never gets a deadline -/
+theorem taktician_never_sends (cfg : TakticianCfg) (color : Color) (size : Nat) (p : Pos) (mine : Int) :
+    (takticianGetMove cfg color size p mine).sends = false ∧
+    (color = .none → takticianGetMove cfg color size p mine = (if cfg.useOpponentTime then .think none none else .noMove)) := by
+  unfold takticianGetMove
+  constructor
+  · by_cases ht : p.toMove = color
+    · simp [ht, Action.sends]
+    · cases hu : cfg.useOpponentTime <;> simp [ht, Action.sends]
+  · intro hc
+    have ht : p.toMove ≠ color := by
+      rw [hc]; unfold Pos.toMove; split <;> simp
+    cases hu : cfg.useOpponentTime <;> simp [ht]
+
+example : ∃ p0, Pos.new { size := 5, pieces := 0, capstones := 0, blackWinsTies := false } = .ok p0 ∧
+    takticianGetMove { limit := 60000000000, useOpponentTime := true } .white 5 p0 1200000000000 = .think (some 20000000000) none ∧
+    takticianGetMove { limit := 60000000000, useOpponentTime := true } .black 5 p0 1200000000000 = .think none none ∧
+    takticianGetMove { limit := 60000000000, useOpponentTime := false } .black 5 p0 1200000000000 = .noMove :=
+  ⟨_, rfl, rfl, rfl, rfl⟩
 
 end C20
